@@ -1044,7 +1044,10 @@ class _L1DynamicsService(_CollinearDynamicsService):
             L1 is between the primaries: -mu < x < 1-mu.
         """
         # L1 is between the primaries: -mu < x < 1-mu
-        return [-self.mu + 0.01, 1 - self.mu - 0.01]
+        # The distance to the secondary scales with the Hill radius (mu/3)^(1/3); a fixed
+        # offset would exclude the root for very small mass ratios.
+        r_hill = (self.mu / 3.0) ** (1.0 / 3.0)
+        return [-self.mu + 0.01, 1 - self.mu - 0.5 * r_hill]
 
     @property
     def _gamma_poly_def(self) -> Tuple[list, tuple]:
@@ -1118,7 +1121,10 @@ class _L2DynamicsService(_CollinearDynamicsService):
             L2 is beyond the smaller primary: x > 1-mu.
         """
         # L2 is beyond the smaller primary: x > 1-mu
-        return [1 - self.mu + 0.001, 2.0]
+        # The distance to the secondary scales with the Hill radius (mu/3)^(1/3); a fixed
+        # offset would exclude the root for very small mass ratios.
+        r_hill = (self.mu / 3.0) ** (1.0 / 3.0)
+        return [1 - self.mu + 0.5 * r_hill, 2.0]
 
     @property
     def _gamma_poly_def(self) -> Tuple[list, tuple]:
